@@ -64,6 +64,14 @@ static int pfx_probe_throw(struct uprobe *uprobe, struct upipe *upipe, int event
         int r = pfx->need_output_hook(pfx, p->id, upipe, pfx->need_output_opaque);
         if (r != UBASE_ERR_UNHANDLED) return r;
     }
+    if (event != UPROBE_LOG && event != UPROBE_DEAD && pfx->event_hook != NULL && upipe != NULL && !t->dead) {
+        /* the probe (and so this structure's chain) must outlive what the application does in there */
+        uprobe_use(uprobe);
+        pfx->event_hook(pfx, p->id, upipe, event, pfx->event_opaque);
+        int r = uprobe_throw_next(uprobe, upipe, event, args);
+        uprobe_release(uprobe);
+        return r;
+    }
     return uprobe_throw_next(uprobe, upipe, event, args);
 }
 
